@@ -92,8 +92,16 @@ def enc(node):
         )
     if isinstance(node, ast.Lambda):
         ar = node.args
-        if ar.posonlyargs or ar.vararg or ar.kwonlyargs or ar.kwarg or ar.kw_defaults:
-            return T("opaque", s=ast.dump(node))
+        if ar.posonlyargs or ar.vararg or ar.kwonlyargs or ar.kwarg:
+            # parameter lists beyond plain parameters: shape in s (spec/Terms.tla LamSig), all bound names in p
+            if len(ar.posonlyargs) > 2 or len(ar.kwonlyargs) > 2:
+                return T("opaque", s=ast.dump(node))
+            sig = f"po{len(ar.posonlyargs)}ko{len(ar.kwonlyargs)}va{1 if ar.vararg else 0}kw{1 if ar.kwarg else 0}"
+            names = ([x.arg for x in ar.posonlyargs] + [x.arg for x in ar.args] + ([ar.vararg.arg] if ar.vararg else [])
+                     + [x.arg for x in ar.kwonlyargs] + ([ar.kwarg.arg] if ar.kwarg else []))
+            return T("lam", s=sig, n=len(ar.defaults), p=names,
+                     a=[enc(node.body)] + [enc(d) for d in ar.defaults]
+                     + [T("absent") if d is None else enc(d) for d in ar.kw_defaults])
         return T(
             "lam",
             n=len(ar.defaults),
@@ -179,6 +187,27 @@ def dec(t):
             func=dec(a[0]),
             args=[dec(x) for x in a[1:1 + n]],
             keywords=[ast.keyword(arg=kw, value=dec(v)) for kw, v in zip(t["p"], a[1 + n:])],
+        )
+    if k == "lam" and t["s"]:
+        import re as _re
+        m = _re.fullmatch(r"po(\d)ko(\d)va(\d)kw(\d)", t["s"])
+        po, ko, va, kw = (int(x) for x in m.groups())
+        names = list(t["p"])
+        nreg = len(names) - po - ko - va - kw
+        nd = t["n"]
+        i = 0
+        posonly = [ast.arg(arg=x) for x in names[i:i + po]]; i += po
+        reg = [ast.arg(arg=x) for x in names[i:i + nreg]]; i += nreg
+        vararg = ast.arg(arg=names[i]) if va else None; i += va
+        kwonly = [ast.arg(arg=x) for x in names[i:i + ko]]; i += ko
+        kwarg = ast.arg(arg=names[i]) if kw else None
+        return ast.Lambda(
+            args=ast.arguments(
+                posonlyargs=posonly, args=reg, vararg=vararg, kwonlyargs=kwonly,
+                kw_defaults=[None if d["k"] == "absent" else dec(d) for d in a[1 + nd:]],
+                kwarg=kwarg, defaults=[dec(d) for d in a[1:1 + nd]],
+            ),
+            body=dec(a[0]),
         )
     if k == "lam":
         return ast.Lambda(
